@@ -19,9 +19,11 @@ import (
 	"flag"
 	"fmt"
 	"net"
+	"runtime"
 	"strconv"
 	"strings"
 	"sync"
+	"syscall"
 	"time"
 
 	"github.com/google/gopacket"
@@ -34,6 +36,7 @@ import (
 	"github.com/v-byte-cpu/sx/pkg/scan/icmp"
 	"github.com/v-byte-cpu/sx/pkg/scan/tcp"
 	"github.com/v-byte-cpu/sx/pkg/scan/udp"
+	"github.com/vishvananda/netlink"
 	"verifharness/hlib"
 )
 
@@ -826,6 +829,134 @@ func gwCase(r *hlib.SplitMix64, gen string) row {
 	return rw
 }
 
+// ---------------------------------------------------------------- gateway MAC on a multi-homed host
+
+// multiHomedCases builds, in a fresh network namespace of a locked OS thread (discarded afterwards), a
+// host with two uplinks and one stub interface
+//
+//	up0   10.1.0.2/24  default via 10.1.0.1 metric 100
+//	up1   10.2.0.2/24  default via 10.2.0.1 metric 200   (the scan interface of interest)
+//	lan0  10.3.0.2/24  no default route
+//
+// and runs the real getGatewayMAC for every interface against caches that know both / only the own /
+// only the other / no gateway.  The gateway address expected for an interface is what THIS driver
+// configured for it (not what ip.GetDefaultGatewayIP says).
+func multiHomedCases() []row {
+	type out struct {
+		rows []row
+		err  error
+	}
+	ch := make(chan out, 1)
+	go func() {
+		runtime.LockOSThread() // never unlocked: the thread dies with its namespace
+		var o out
+		defer func() { ch <- o }()
+		if err := syscall.Unshare(syscall.CLONE_NEWNET); err != nil {
+			o.err = fmt.Errorf("unshare(CLONE_NEWNET): %w", err)
+			return
+		}
+		type ifc struct {
+			name, addr, gw string
+			metric         int
+			gwmac          string
+		}
+		ifcs := []ifc{{"up0", "10.1.0.2/24", "10.1.0.1", 100, "aa:aa:aa:aa:aa:01"}, {"up1", "10.2.0.2/24", "10.2.0.1", 200, "bb:bb:bb:bb:bb:01"},
+			{"lan0", "10.3.0.2/24", "", 0, ""}}
+		for _, c := range ifcs {
+			la := netlink.NewLinkAttrs()
+			la.Name = c.name
+			if err := netlink.LinkAdd(&netlink.Veth{LinkAttrs: la, PeerName: c.name + "p"}); err != nil {
+				o.err = fmt.Errorf("link add %s: %w", c.name, err)
+				return
+			}
+			link, err := netlink.LinkByName(c.name)
+			if err != nil {
+				o.err = err
+				return
+			}
+			peer, err := netlink.LinkByName(c.name + "p")
+			if err != nil {
+				o.err = err
+				return
+			}
+			addr, _ := netlink.ParseAddr(c.addr)
+			if err := netlink.AddrAdd(link, addr); err != nil {
+				o.err = fmt.Errorf("addr add %s: %w", c.name, err)
+				return
+			}
+			if err := netlink.LinkSetUp(link); err != nil {
+				o.err = err
+				return
+			}
+			if err := netlink.LinkSetUp(peer); err != nil {
+				o.err = err
+				return
+			}
+			if c.gw != "" {
+				if err := netlink.RouteAdd(&netlink.Route{LinkIndex: link.Attrs().Index, Gw: net.ParseIP(c.gw), Priority: c.metric}); err != nil {
+					o.err = fmt.Errorf("route add %s: %w", c.name, err)
+					return
+				}
+			}
+		}
+		for _, c := range ifcs {
+			iface, err := net.InterfaceByName(c.name)
+			if err != nil {
+				o.err = err
+				return
+			}
+			for variant := 0; variant < 4; variant++ { // bit 0: own gateway in the cache, bit 1: the other uplinks' gateways
+				var file bytes.Buffer
+				for _, d := range ifcs {
+					if d.gw == "" {
+						continue
+					}
+					own := d.name == c.name
+					if (own && variant&1 != 0) || (!own && variant&2 != 0) {
+						fmt.Fprintf(&file, "{\"ip\":%q,\"mac\":%q,\"vendor\":\"\"}\n", d.gw, d.gwmac)
+					}
+				}
+				fmt.Fprintf(&file, "{\"ip\":\"10.2.0.9\",\"mac\":\"bb:bb:bb:bb:bb:09\",\"vendor\":\"\"}\n")
+				cache := arp.NewCache()
+				if err := arp.FillCache(cache, bytes.NewReader(file.Bytes())); err != nil {
+					o.err = err
+					return
+				}
+				got, gerr := command.VerifGetGatewayMAC(nil, iface, cache)
+				gen := fmt.Sprintf("multihomed:%s:%d", c.name, variant)
+				rw := row{T: "gw", Gen: gen, Class: "multi-homed:" + c.name + []string{":no-gateway-cached", ":own-gateway-cached", ":other-gateway-cached", ":both-gateways-cached"}[variant],
+					File: hx(file.Bytes()), GwIP: hx(net.ParseIP(c.gw).To4()), GotMAC: hx(got), GotNil: got == nil, OK: gerr == nil, Nontrivial: true}
+				var want net.HardwareAddr
+				if c.gw != "" && variant&1 != 0 {
+					want, _ = net.ParseMAC(c.gwmac)
+				}
+				// what a probe to a remote address through this interface is then addressed to
+				lg := &listGen{reqs: []*scan.Request{{DstIP: net.IPv4(93, 184, 216, 34).To4()}}}
+				reqs, _ := arp.NewCacheRequestGenerator(lg, got, cache).GenerateRequests(context.Background(), &scan.Range{Interface: iface})
+				var probe *scan.Request
+				for rq := range reqs {
+					probe = rq
+				}
+				switch {
+				case gerr != nil:
+					rw.Spec = "getGatewayMAC fails on a multi-homed host: " + gerr.Error()
+				case !bytes.Equal(got, want) && got != nil:
+					rw.Spec = fmt.Sprintf("scan through %s (default gateway %s) on a host with default routes up0 via 10.1.0.1 metric 100 and up1 via 10.2.0.1 metric 200: the gateway MAC is %s, which is not the cache entry of %s's own gateway (%v); a probe to 93.184.216.34 is addressed to %s",
+						c.name, c.gw, got, c.name, want, net.HardwareAddr(probe.DstMAC))
+				case !bytes.Equal(got, want):
+					rw.Spec = fmt.Sprintf("scan through %s: its own default gateway %s is in the ARP cache (%s) but no gateway MAC is found; a probe to 93.184.216.34 is replaced by an error", c.name, c.gw, want)
+				}
+				o.rows = append(o.rows, rw)
+			}
+		}
+	}()
+	o := <-ch
+	if o.err != nil {
+		return []row{{T: "skip", Gen: "multihomed", Class: "network namespace with two uplinks could not be set up: " + o.err.Error()}}
+	}
+	return o.rows
+}
+
 // ---------------------------------------------------------------- concurrent readers
 
 func raceCase(r *hlib.SplitMix64, gen string, readers int) row {
@@ -899,6 +1030,15 @@ func derive(seed int64, i int) int64 {
 
 func genCase(gen string) row {
 	parts := strings.Split(gen, ":")
+	if parts[0] == "multihomed" {
+		rows := multiHomedCases()
+		for _, rw := range rows {
+			if rw.Gen == gen {
+				return rw
+			}
+		}
+		return rows[0]
+	}
 	seed, err := strconv.ParseInt(parts[len(parts)-1], 10, 64)
 	if err != nil {
 		panic("bad gen string " + gen)
@@ -997,6 +1137,9 @@ func main() {
 	for i := 0; i < *n; i++ {
 		w.Put(genCase(fmt.Sprintf("chain:%d", derive(*seed, k))))
 		k++
+	}
+	for _, rw := range multiHomedCases() {
+		w.Put(rw)
 	}
 	for i := 0; i < 24; i++ {
 		w.Put(genCase(fmt.Sprintf("gw:%d", derive(*seed, k))))
